@@ -659,6 +659,23 @@ package vuego
 //@   assert C01+C04.include.attrs.private: fresh($arg1) && $arg1 != nil at "call evalAttributes"
 //@   assert C05.required.checked: forall ri int :: 0 <= ri && ri < len(requiredAttrs) ==> (requiredAttrs[ri] in componentData) at "call evalVHtml"
 
+// ---- component shorthand tags (C05): every element whose tag is registered becomes <template include=file> ----
+
+//@ func (v *Vue) GetComponentFile(tagName) (r, ok)
+//@   modifies nothing
+//@   ensures C05.shorthand.lookup: ok == (tagName in v.componentMap) && (ok ==> r == v.componentMap[tagName])
+//@ func (v *Vue) replaceWithInclude(node, filename) (err)
+//@   modifies node.Data, node.Attr
+//@   ensures C05.shorthand.rewrite: err == nil && node.Data == "template" && len(node.Attr) == old(len(node.Attr)) + 1 &&
+//@     node.Attr[len(node.Attr) - 1].Key == "include" && node.Attr[len(node.Attr) - 1].Val == filename &&
+//@     forall i int :: 0 <= i && i < old(len(node.Attr)) ==> node.Attr[i] == old(node.Attr[i])
+//@ func (v *Vue) processComponentNode(node) (err)
+//@   modifies everyField("html.Node", "Data"), everyField("html.Node", "Attr")
+//@   ensures C05.shorthand.every.element: old(node.Type == html.ElementNode && (node.Data in v.componentMap)) ==>
+//@     err == nil && node.Data == "template" && len(node.Attr) == old(len(node.Attr)) + 1 &&
+//@     node.Attr[len(node.Attr) - 1].Key == "include" && node.Attr[len(node.Attr) - 1].Val == old(v.componentMap[node.Data]) &&
+//@     forall i int :: 0 <= i && i < old(len(node.Attr)) ==> node.Attr[i] == old(node.Attr[i])
+
 //@ func (v *Vue) evalInclude(ctx, node, vars, depth) (res, err)
 //@   decreases maxEvalDepth + 10 - depth, 0
 //@   holds ctx.stack
